@@ -282,7 +282,9 @@ K("awkward_NumpyArray_unique_strings_uint8",
 
 K("awkward_ListOffsetArray_reduce_nonlocal_preparenext_64",
   requires=[NONNEG("parents", "length"), "forall(q, 0, length, offsetscopy[q] >= offsets[q])"],
-  loops={"L1": ["forall(q, 0, length, offsetscopy[q] >= offsets[q])"],
-         "L1.0": ["0 <= i", "forall(q, 0, length, offsetscopy[q] >= offsets[q])"]},
-  notes="termination of the outer while depends on sum(counts) == nextlen (caller's obligation); not proved here",
+  loops={"L0": ["maxnextparents[0] >= 0"],
+         "L1": ["forall(q, 0, length, offsetscopy[q] >= offsets[q])", "maxnextparents[0] >= 0"],
+         "L1.0": ["0 <= i", "forall(q, 0, length, offsetscopy[q] >= offsets[q])", "maxnextparents[0] >= 0"]},
+  ensures_ok=["maxnextparents[0] >= 0"],
+  notes="maxnextparents >= 0 is what sizes nextstarts (maxnextparents + 1) and the next level's outlength; termination of the outer while depends on sum(counts) == nextlen (caller's obligation); not proved here",
   serves=["C03", "C12", "C13"])
